@@ -451,8 +451,8 @@ theorem gen_read2 (t : Adv.Tag) (page : Nat) (s : Adv.S2) :
         | (.ok d, s') =>
           if Gen.Fn.t2_is_nak d = .ok true then
             match Adv.xchg t s'.w [] with
-            | (some _, w') => ((.error (.tagCmd 2) : Py Bytes), { s' with w := w', alive := true })
-            | (none, w') => (.error (.tagCmd (-1)), { s' with w := w', alive := false })
+            | (some _, w') => ((.error (.tagCmd 2) : Py Bytes), { s' with w := w', alive := true, sector := 0 })
+            | (none, w') => (.error (.tagCmd (-1)), { s' with w := w', alive := false, sector := 0 })
           else (Gen.Fn.t2_read_rsp d, s'))) = .ok (Adv.read2 t page s) := by
   rw [t2_read_cmd_bridge, read2_cmd]
   simp only [Py.bind_ok, t2_is_nak_bridge, t2_read_rsp_bridge, Except.ok.injEq]
